@@ -73,6 +73,33 @@ def gen_case(rng, parallel=None, failures=False, iters=False):
     return dict(cfg=cfg, streams=streams, plan=plan, fkind=rng.choice(['module', 'lambda', 'closure']), label='multi')
 
 
+def gen_case_pending_failure(rng):
+    """stream A's source (or function) has already failed while results of A are still in flight; a second stream of the same
+    stage is created and STARTED at exactly that moment; then A is asked for the rest — it must still end with its exception"""
+    nw, ec = rng.choice([1, 2, 3]), rng.choice([0, 1, 2])
+    w = nw + ec
+    cfg = dict(nworkers=nw, extracache=ec, skipNone=rng.random() < 0.7, maxtasksperchild=None)
+    na = rng.randint(1, w + 2)
+    ta = [['u'] if rng.random() < 0.8 else ['n'] for _ in range(na)]
+    tail = None
+    if rng.random() < 0.6:
+        tail = rng.randrange(100)                      # the source raises after na elements
+    else:
+        ta[rng.randrange(max(0, na - w), na)] = ['e', rng.randrange(100)]     # the function fails for one of the last elements
+    nb = rng.choice([1, 2, 4])
+    streams = [dict(n=na, table=ta, tail=tail, kwargs={}), dict(n=nb, table=[['u'] for _ in range(nb)], tail=None, kwargs={})]
+    before = rng.randint(1, max(1, na - 1))            # A is advanced this far before B starts
+    plan = [[0, 'K']] + ([[1, 'K']] if rng.random() < 0.5 else [])
+    plan += [[0, 'N']] * before
+    if [1, 'K'] not in plan:
+        plan.append([1, 'K'])
+    plan.append([1, 'N'])
+    rest = [[0, 'N']] * (na + 2 - before) + [[1, 'N']] * (nb + 1)
+    rng.shuffle(rest)
+    plan += rest
+    return dict(cfg=cfg, streams=streams, plan=plan, fkind=rng.choice(['module', 'lambda', 'closure']), label='multi')
+
+
 def expected_stream(case, s):
     st = case['streams'][s]
     sub = dict(cfg=case['cfg'], table=st['table'], tail=st['tail'])
@@ -210,9 +237,19 @@ def model_lines(case, res):
     return lines, keys
 
 
-def run(ctx, ncases, aspects, label, parallel=None, failures=False, iters=False):
+def replay(ctx, case):
+    """re-run one recorded multi-stream scenario (the replay file carries the aspects it was judged on)"""
+    c = {k: v for k, v in case.items() if k not in ('aspects', 'label')}
+    c['plan'] = [tuple(x) if isinstance(x, list) and len(x) == 2 and not isinstance(x[1], list) else x for x in c['plan']]
+    run(ctx, 0, set(case.get('aspects') or ['outputs']), case.get('label', 'multi-replay'), cases=[c])
+
+
+def run(ctx, ncases, aspects, label, parallel=None, failures=False, iters=False, cases=None):
     rng = ctx.rng
-    cases = [gen_case(rng, parallel, failures, iters) for _ in range(ncases)]
+    if cases is None:
+        cases = [gen_case(rng, parallel, failures, iters) for _ in range(ncases)]
+        if failures and parallel is not False:
+            cases += [gen_case_pending_failure(rng) for _ in range(max(4, ncases // 4))]
     results = pipelib.run_cases(cases, workers=16)
     for attempt in range(2):
         again = [i for i, r in enumerate(results) if r.get('timeout') and 'harness_error' not in r]
@@ -254,7 +291,7 @@ def run(ctx, ncases, aspects, label, parallel=None, failures=False, iters=False)
     mout = core.run_driver(all_lines) if all_lines else []
     pos = 0
     for c, r, keys in zip(cases, results, spans):
-        small = dict(cfg=c['cfg'], streams=c['streams'], plan=c['plan'], fkind=c['fkind'], label=label)
+        small = dict(c, label=label, aspects=sorted(aspects))
         interleaved = len({s for s, a in c['plan'] if a == 'N'}) >= 2
         ctx.case(('multi', c['cfg'], c['streams'], c['plan']), interleaved, sample=small if sum(st['n'] for st in c['streams']) <= 6 else None)
         ctx.count('multi_stream_scenarios')
